@@ -12,6 +12,14 @@ def main():
     mk = os.path.join(nat, 'build.sh')
     if os.path.exists(mk):
         subprocess.check_call(['sh', mk])
+    # assemble and warm the Miri workspace (builds the dependency graph for the interpreter once)
+    from .checks import miri_layer
+    crate, why = miri_layer.ensure()
+    if crate:
+        r = miri_layer.run_one(crate, 'normpath', 1, 3, timeout=900)
+        print('rv setup: miri warm-up: %s (%.0fs)' % (r['status'], r['wall']))
+    else:
+        print('rv setup: miri layer unavailable: %s' % why)
     common.cleanup_scratch()
     print('rv setup: ok')
     return 0
